@@ -80,6 +80,8 @@ type T struct {
 	Name string
 	Args []*T
 	ID   int
+	H    uint64 // structural hash (independent of construction order)
+	D    int32  // depth
 }
 
 func (t *T) IsConst() bool { return t.Op == OpConst }
@@ -97,6 +99,10 @@ type key struct {
 }
 
 type Ctx struct {
+	// Rep maps a term to an equal (under the current path condition) canonical representative.
+	// It is installed per path by the executor; every composite term is built over canonical
+	// arguments, so that facts like a=b make f(a) and f(b) the same node.
+	Rep   map[*T]*T
 	table map[key]*T
 	All   []*T
 	Vars  []*T
@@ -111,7 +117,53 @@ func NewCtx() *Ctx {
 	return c
 }
 
+func mix(h, v uint64) uint64 {
+	h ^= v + 0x9e3779b97f4a7c15 + (h << 6) + (h >> 2)
+	h *= 0xff51afd7ed558ccd
+	h ^= h >> 33
+	return h
+}
+
+func commutative(op Op) bool {
+	switch op {
+	case OpAnd, OpOr, OpEq, OpAdd, OpMul, OpBAnd, OpBOr, OpBXor:
+		return true
+	}
+	return false
+}
+
+// Less is a construction-order-independent total preorder used to pick representatives.
+func Less(a, b *T) bool {
+	if a.IsConst() != b.IsConst() {
+		return a.IsConst()
+	}
+	if a.D != b.D {
+		return a.D < b.D
+	}
+	return a.H < b.H
+}
+
 func (c *Ctx) mk(op Op, w, p1, p2 int, val uint64, name string, args ...*T) *T {
+	if len(c.Rep) > 0 && len(args) > 0 {
+		changed := false
+		for _, a := range args {
+			if _, ok := c.Rep[a]; ok {
+				changed = true
+				break
+			}
+		}
+		if changed {
+			na := make([]*T, len(args))
+			for i, a := range args {
+				if r, ok := c.Rep[a]; ok {
+					na[i] = r
+				} else {
+					na[i] = a
+				}
+			}
+			return c.Apply(&T{Op: op, W: w, P1: p1, P2: p2, Val: val, Name: name}, na)
+		}
+	}
 	k := key{op: op, w: w, p1: p1, p2: p2, val: val, name: name, a0: -1, a1: -1, a2: -1}
 	if len(args) > 0 {
 		k.a0 = args[0].ID
@@ -132,16 +184,48 @@ func (c *Ctx) mk(op Op, w, p1, p2 int, val uint64, name string, args ...*T) *T {
 		k.name = sb.String()
 	}
 	if t, ok := c.table[k]; ok {
+		if r, ok := c.Rep[t]; ok {
+			return r
+		}
 		return t
 	}
 	t := &T{Op: op, W: w, P1: p1, P2: p2, Val: val, Name: name, ID: len(c.All)}
+	h := mix(mix(mix(mix(uint64(op)+1, uint64(w)), uint64(p1)<<8^uint64(p2)), val), 0)
+	for i := 0; i < len(name); i++ {
+		h = mix(h, uint64(name[i]))
+	}
 	if len(args) > 0 {
 		t.Args = append([]*T(nil), args...)
+		if commutative(op) && len(args) == 2 {
+			x, y := args[0].H, args[1].H
+			if x > y {
+				x, y = y, x
+			}
+			h = mix(mix(h, x), y)
+		} else {
+			for _, a := range args {
+				h = mix(h, a.H)
+			}
+		}
+		for _, a := range args {
+			if a.D+1 > t.D {
+				t.D = a.D + 1
+			}
+		}
 	}
+	t.H = h
 	c.table[k] = t
 	c.All = append(c.All, t)
 	if op == OpVar {
 		c.Vars = append(c.Vars, t)
+	}
+	return t
+}
+
+// Canon returns the representative of t under Rep.
+func (c *Ctx) Canon(t *T) *T {
+	if r, ok := c.Rep[t]; ok {
+		return r
 	}
 	return t
 }
@@ -942,6 +1026,24 @@ func HasHardArith(t *T, seen map[*T]bool) bool {
 	}
 	for _, a := range t.Args {
 		if HasHardArith(a, seen) {
+			return true
+		}
+	}
+	return false
+}
+
+// HasFP reports whether the DAG under t contains floating-point operations.
+func HasFP(t *T, seen map[*T]bool) bool {
+	if seen[t] {
+		return false
+	}
+	seen[t] = true
+	switch t.Op {
+	case OpFLt, OpFLe, OpFEq, OpFIsNaN, OpFAdd, OpFSub, OpFMul, OpFDiv, OpFSqrt, OpFRound, OpSIToF, OpUIToF, OpFToSI, OpFToUI:
+		return true
+	}
+	for _, a := range t.Args {
+		if HasFP(a, seen) {
 			return true
 		}
 	}
